@@ -261,12 +261,35 @@ func (v *TimestampedStreamValue) MarshalBinary() ([]byte, error) {
 	return proto.Marshal(&t)
 }
 
+// maxTimestampedStreamValueNesting is the number of TimestampedStreamValues
+// that may be nested inside a TimestampedStreamValue when decoding. Nesting is
+// never valid (see ValidateObservation), but one level is still decoded so that
+// validation can report it; deeper nesting is refused here because every level
+// re-copies the remaining bytes, which makes decoding cost quadratic in the
+// input size.
+const maxTimestampedStreamValueNesting = 1
+
 func (v *TimestampedStreamValue) UnmarshalBinary(data []byte) error {
+	return v.unmarshalBinary(data, 0)
+}
+
+func (v *TimestampedStreamValue) unmarshalBinary(data []byte, depth int) error {
 	t := new(LLOTimestampedStreamValue)
 	if err := proto.Unmarshal(data, t); err != nil {
 		return err
 	}
 	v.ObservedAtNanoseconds = t.ObservedAtNanoseconds
+	if t.StreamValue != nil && t.StreamValue.Type == LLOStreamValue_TimestampedStreamValue {
+		if depth >= maxTimestampedStreamValueNesting {
+			return errors.New("TimestampedStreamValue is nested too deeply")
+		}
+		inner := new(TimestampedStreamValue)
+		if err := inner.unmarshalBinary(t.StreamValue.Value, depth+1); err != nil {
+			return err
+		}
+		v.StreamValue = inner
+		return nil
+	}
 	sv, err := UnmarshalProtoStreamValue(t.StreamValue)
 	if err != nil {
 		return err
